@@ -60,6 +60,39 @@ func newGen(g *vlib.Rng) *gen {
 	return ge
 }
 
+// with returns a generator sharing the precomputed tables but drawing from its own PRNG.
+func (ge *gen) with(g *vlib.Rng) *gen {
+	return &gen{g: g, smallX: ge.smallX, smallY: ge.smallY, nonRes: ge.nonRes}
+}
+
+// make draws one case of the given kind.
+func (ge *gen) make(kind string, oracle bool) Case {
+	switch kind {
+	case "ecdsa":
+		return ge.ecdsa(oracle)
+	case "schnorr":
+		return ge.schnorr(oracle)
+	case "tweak":
+		return ge.tweak(oracle)
+	case "sign":
+		return ge.sign(oracle)
+	case "signrfc":
+		return ge.signRfc(oracle)
+	case "signrnd":
+		return ge.signRnd(oracle)
+	case "ssign":
+		return ge.ssign(oracle)
+	case "pub":
+		return ge.pub(oracle)
+	case "psig":
+		return ge.psig(oracle)
+	case "nonce":
+		return ge.nonce(oracle)
+	default:
+		return ge.hmac(oracle)
+	}
+}
+
 func (ge *gen) scalar() *big.Int {
 	g := ge.g
 	switch g.Intn(10) {
@@ -559,6 +592,9 @@ func (ge *gen) tweak(oracle bool) Case {
 	case 8, 9: // t + n (only fits for tiny t)
 		t2 := big.NewInt(int64(g.Intn(1000)))
 		Q2 := refAdd(P, refMul(t2, refG()))
+		if Q2 == nil {
+			return mk("tweak", "infinity", oracle, make([]byte, 32), base, be32(t2), par)
+		}
 		return mk("tweak", "t-plus-n", oracle, be32(Q2.x), base, be32(new(big.Int).Add(t2, refN)), []byte{byte(Q2.y.Bit(0))})
 	case 10:
 		return mk("tweak", "t-special", oracle, qx, base, be32(ge.special()), par)
